@@ -53,7 +53,7 @@ structure CurveFacts {α β : Type} (X : Ctx α β) where
     Point.checkOnCurve X.C xe ye = Spec.SM2.onCurve (Bytes.toNatBE x) (Bytes.toNatBE y)
   /-- C16: scalar-field decoding and inversion: for 1 ≤ v < n the inverse of v mod n comes out as an integer -/
   scalarInv : ∀ v : Nat, 1 ≤ v → v < Spec.SM2.n →
-    ∃ e, Field.scalarSetBytes X.S (Point.pad32 (Bytes.ofNatMin v)) = .ok e ∧
+    ∃ e, Field.scalarSetBytes X.S (Bytes.ofNatBE 32 v) = .ok e ∧
       Field.toNat X.S (Field.invert X.S e) = Spec.SM2.invMod v Spec.SM2.n
   /-- C04: the SM3 instance hashes like the standard -/
   zBytes_eq : X.zBytes = Bytes.ofNatBE 32 Spec.SM2.a ++ Bytes.ofNatBE 32 Spec.SM2.b ++ Bytes.ofNatBE 32 Spec.SM2.Gx ++ Bytes.ofNatBE 32 Spec.SM2.Gy
